@@ -10,7 +10,7 @@ driver ops for C11 (`harness/c11.py`):
   * ops: `E<x>` evaluate, `I` initialize, `R` set_raw, `M<m>` set_model, `G` get_differentials
 Output: one token per op, `model/spec`: the output of the object model and of the documented
 machine (`=` when textually identical).  `v<code>` value, `ok`, `ERR`, `OOB`,
-`d<rows>:<e.x.i,…>` data.
+`d<rows>:<e.x.i,…>` data; `v<code>F|D` = value + same as / different from a fresh object.
 
 `fomC` prints the float codes the model uses.
 -/
@@ -53,6 +53,26 @@ def showOut (t : CaseTab) : Out Int Seg → String
     let d := s!"d{rows}:{",".intercalate (sc.map showSeg)}"
     if sc == df then d else d ++ "!df"
 
+/-- run the object model and the documented machine side by side; for every `evaluate` also say whether
+the object model returned what a freshly constructed object (other stale buffer content, same mode)
+returns: `F`resh / `D`ifferent -/
+def runBoth (env : Env Int Seg Nat Nat) (sup : Bool) (g : List Int) (t : CaseTab) :
+    St Int Seg Nat → Abs Seg Nat → List (Op Nat Nat) → List String
+  | _, _, [] => []
+  | s, a, op :: ops =>
+    let (s', o) := step env s op
+    let (a', ao) := astep env sup a op
+    let (m, sp) := match op with
+      | .evaluate x =>
+        let f0 := init env sup g.reverse
+        let f1 := match a.model with
+          | some md => (setModel f0 md).1
+          | none => f0
+        let fo := (evaluate env f1 x).2
+        (showOut t o ++ (if o == fo then "F" else "D"), showOut t ao ++ "F")
+      | _ => (showOut t o, showOut t ao)
+    (if m == sp then m ++ "/=" else m ++ "/" ++ sp) :: runBoth env sup g t s' a' ops
+
 def handle (op rest : String) : Option String :=
   match op, fields rest with
   | "fomC", _ => some s!"c1e100={code1e100} c1e200={code1e200} cnegzero={codeNegZero}"
@@ -64,9 +84,7 @@ def handle (op rest : String) : Option String :=
       match ← nats? hd with
       | [le, sup, n] =>
         let env := tabEnv (le != 0) n t a
-        let mo := (outputs env (init env (sup != 0) g) ops).map (showOut t)
-        let so := (aoutputs env (sup != 0) ainit ops).map (showOut t)
-        pure (" ".intercalate ((mo.zip so).map fun (m, s) => if m == s then m ++ "/=" else m ++ "/" ++ s))
+        pure (" ".intercalate (runBoth env (sup != 0) g t (init env (sup != 0) g) ainit ops))
       | _ => none
   | _, _ => none
 end Drv.C11
